@@ -9,12 +9,14 @@ Notation up_to_date_c := (up_to_date project config sched fname tree tree files)
 
 (* Model of the patched code (commands sorted by (file, name) before hashing, type mappings through a BTreeMap,
    files analysed in sorted path order). The fingerprint is the same under every valid discovery order - file
-   map order and mapping order - for projects whose commands have unique (file, name), whose discovered
+   map order and mapping order - for projects whose commands of each single file are discovered in the same (source) order under both
+   orders (the hash sorts stably by file: C08-10), whose discovered
    structs have unique names (what Rust and the HashMap of structs guarantee) and whose events are discovered in
    the same order (they are hashed in discovery order; since C13-sort-before-use that order is unique). *)
 Theorem C14_fp_order_independent : forall (p : project) (c : config) (wa wb : sched),
   valid_sched wa p c = true -> valid_sched wb p c = true ->
-  NoDup (map (cmd_key (g_ppath c)) (a_cmds (analyse wa p))) -> NoDup (map s_name (a_structs (analyse wa p))) ->
+  (forall x, filter (same_file (g_ppath c) x) (a_cmds (analyse wa p)) = filter (same_file (g_ppath c) x) (a_cmds (analyse wb p))) ->
+  NoDup (map s_name (a_structs (analyse wa p))) ->
   u_events (analyse wa p) = u_events (analyse wb p) ->
   fp wa p c = fp wb p c.
 Proof. exact fp_order_independent. Qed.
@@ -26,7 +28,8 @@ Theorem C14_idempotent : forall (w1 w2 : sched) (st : cstate) r st1,
   run_c true w1 false None st = (r, st1) -> r = Success \/ r = UpToDate ->
   g_force (s_cfg st) = false ->
   valid_sched w1 (s_src st) (s_cfg st) = true -> valid_sched w2 (s_src st) (s_cfg st) = true ->
-  NoDup (map (cmd_key (g_ppath (s_cfg st))) (a_cmds (analyse w1 (s_src st)))) ->
+  (forall x, filter (same_file (g_ppath (s_cfg st)) x) (a_cmds (analyse w1 (s_src st))) =
+             filter (same_file (g_ppath (s_cfg st)) x) (a_cmds (analyse w2 (s_src st)))) ->
   NoDup (map s_name (a_structs (analyse w1 (s_src st)))) ->
   u_events (analyse w1 (s_src st)) = u_events (analyse w2 (s_src st)) ->
   run_c true w2 false None st1 = (UpToDate, st1).
@@ -94,7 +97,8 @@ Theorem C14_relative_path : forall root r : str, rel_path root (root ++ L "/" ++
 Proof. exact rel_path_app. Qed.
 
 Example C14_ex_premises :
-  NoDup (map (cmd_key (g_ppath c0)) (a_cmds (analyse w01 p2))) /\ NoDup (map s_name (a_structs (analyse w01 p2))) /\ has_commands p2 = true.
+  fp w01 p2 c0 = fp w10 p2 c0 /\ NoDup (map s_name (a_structs (analyse w01 p2))) /\ has_commands p2 = true /\
+  u_events (analyse w01 p2) = u_events (analyse w10 p2).
 Proof. exact c14_ex_keys. Qed.
 
 Print Assumptions C14_idempotent.
